@@ -17,7 +17,8 @@ RULE = (
     "qudit ResetChannel / qudit X,Z rows) with special+continuous parameters, "
     "placed on Line/Grid/Named qubits or qids at drawn (non-ascending, non-adjacent) positions, wrapped 0-3 times by "
     "with_tags, with_qubits(permutation), controlled_by / ControlledOperation / gate.controlled / ControlledGate with "
-    "ProductOfSums, SumOfProducts and qudit control values, cirq.inverse, **t, ParallelGate, CircuitOperation(repetitions, "
+    "ProductOfSums, SumOfProducts and qudit control values (control qids of dimension 2-6 with arbitrary non-empty level "
+    "subsets: unevenly spaced, non-contiguous, full, given unsorted/duplicated), cirq.inverse, **t, ParallelGate, CircuitOperation(repetitions, "
     "extra ops). An independent numpy reference computes what the stack means from the bare gate's matrices (block "
     "matrix over control values, dagger, integer matrix power, tensor power, ordered product). Each sub-check then asks "
     "Cirq for one family of descriptions of the *wrapped* value (operation and, where it exists, its gate) and compares: "
@@ -147,6 +148,8 @@ def _base_labels(b, lvl):
         lab["w_" + w] = True
     for s in b.skipped:
         lab["skip_" + s.replace(":", "_")] = True
+    for f in sorted(b.ctrl_feats):
+        lab["ctrl_" + f] = True
     lab["qudit"] = any(q.dimension != 2 for q in b.op.qubits)
     return lab
 
@@ -730,8 +733,11 @@ def _sv_channel(b, val, qubits, lvl, reg, shape, axes, psi0, ref_k, r):
     if abs(nrm - 1) > 1e-6:
         raise Violation(f"act_on(StateVectorSimulationState, {lvl}) trajectory of a channel is not normalised: |psi|={nrm:.6g}\n{_desc(b)}")
     # (1) whatever mechanism was used, a trajectory must lie in span{K_i psi} of the reference channel
-    span = np.array([L.apply_matrix(k, axes, shape, psi0) for k in ref_k])
-    coef = np.linalg.lstsq(span.T, got, rcond=1e-10)[0]
+    # (columns are normalised: a branch K_i psi of norm 1e-7 is a legitimate trajectory, and an un-normalised least-squares
+    #  problem truncates exactly that direction - the first version raised a false alarm on ParallelGate(GAD(p=0.0047))**3)
+    span = [L.apply_matrix(k, axes, shape, psi0) for k in ref_k]
+    span = np.array([v / np.linalg.norm(v) for v in span if np.linalg.norm(v) > 1e-150])
+    coef = np.linalg.lstsq(span.T, got, rcond=1e-12)[0]
     resid = float(np.linalg.norm(span.T @ coef - got))
     if resid > 1e-6:
         raise Violation(f"act_on(StateVectorSimulationState, {lvl}) trajectory is outside span{{K_i psi}} of the reference channel (residual {resid:.3g})\n{_desc(b)}")
@@ -1053,7 +1059,8 @@ _DECOMP = lambda f: f.unitary and f.name not in ("XPow", "YPow", "ZPow", "Rx", "
 
 SUBCHECKS = [
     SubCheck("apply_unitary", _apply_case(_ALL), oracle_apply, quick=5600, thorough=160000, shards_quick=8, shards_thorough=16,
-             essential={"odd_layout": 0.5, "lay_subspaces": 0.15, "wrapped": 0.5, "w_ctrl": 0.15}),
+             essential={"odd_layout": 0.5, "lay_subspaces": 0.15, "wrapped": 0.5, "w_ctrl": 0.15, "ctrl_dim4plus": 0.04,
+                        "ctrl_uneven_levels": 0.015, "ctrl_sop": 0.03}),
     SubCheck("apply_unitary_kernels", _apply_case(_FAST, kinds=("tag", "perm", "ctrl", "pow"), nlay=4, force=3), oracle_apply,
              quick=4000, thorough=120000, shards_quick=4, shards_thorough=16, essential={"odd_layout": 0.6, "kernel": 0.6}),
     SubCheck("decompose", _decomp_case(_DECOMP), oracle_decompose, quick=4000, thorough=100000, shards_quick=8, shards_thorough=16,
